@@ -190,6 +190,17 @@ func genD(t *rapid.T) CaseD {
 	c.Mid = fill("mid", 300<<10)
 	c.ParamLen = rapid.SampledFrom([]int{0, 10, 1500, 4000}).Draw(t, "param-len")
 	c.Use = rapid.SampledFrom([]string{"execute", "execute-twice", "describe-portal", "describe-stmt", "bind-again"}).Draw(t, "use")
+	// oversized messages are consumed in exactly their declared length as well (bodies beyond the limit,
+	// beyond 64 KiB and not a multiple of any power of two), whatever follows them is read as it stands
+	if rapid.IntRange(0, 2).Draw(t, "oversized?") == 0 {
+		c.Overs = rapid.SampledFrom([]int{1, 1, 2, 3}).Draw(t, "overs")
+		body := rapid.SampledFrom([]int{c.Limit + 1, c.Limit + 100, 65537, 70000, 131073, 200000, 3*c.Limit + 7, 1<<20 + 3}).Draw(t, "over-body")
+		if body <= c.Limit {
+			body = c.Limit + 1
+		}
+		c.OverBy = body - c.Limit
+		c.OverType = rapid.SampledFrom([]byte{'Q', 'P', 'B', 'd', 'Y'}).Draw(t, "over-type")
+	}
 	nmsgs := len(c.Pre) + 3 + len(c.Mid)
 	for i, n := 0, rapid.IntRange(0, 3).Draw(t, "nvisitors"); i < n; i++ {
 		c.Visitors = append(c.Visitors, rapid.IntRange(0, nmsgs-1).Draw(t, "visitor-at"))
